@@ -169,6 +169,9 @@ class SymEnv:
         import time as _t
         t0 = _t.time()
         r, m, info = nra.decide(term, rel, self.eng.hyps(), timeout_ms=timeout_ms)
+        if nra.SLOW[0]:
+            self.eng.stats['slow_queries'] = self.eng.stats.get('slow_queries', 0) + nra.SLOW[0]
+            nra.SLOW[0] = 0
         self.eng.stats['solver_s'] += _t.time() - t0
         self.eng.stats[r] += 1
         if len(self.eng.sample_queries) < 3:
